@@ -128,7 +128,14 @@ def slice_str(sl):
     return '[%s:%s%s]' % (f(sl.start), f(sl.stop), '' if sl.step is None else ':' + f(sl.step))
 
 
-def rand_slice(rng):
+MULTI_SLICES = [slice(None, None, -1), slice(None, None, -2), slice(-1, None, -1), slice(-1, 0, -1), slice(1, None, -1),
+                slice(-2, None, -1), slice(None, None, 2), slice(1, None), slice(None, -1), slice(None, None, 1)]
+
+
+def rand_slice(rng, ntargets=1):
+    if ntargets >= 2 and rng.random() < 0.6:
+        # several same-id siblings: slices that select more than one, half of them backwards
+        return rng.choice(MULTI_SLICES)
     k = rng.random()
     if k < 0.45:
         return None
@@ -168,8 +175,9 @@ def enumerate_paths(rng, nested_subset, max_depth, budget):
         for a in node.get('attributes', []):
             steps.append(('.', a['id'], [a]))
         rng.shuffle(steps)
+        steps.sort(key=lambda st: -min(len(st[2]), 2))     # steps with several same-id siblings first (stable)
         for sep, i, targets in steps[:4]:
-            sl = rand_slice(rng)
+            sl = rand_slice(rng, len(targets))
             expr = prefix + sep + i + slice_str(sl)
             cs = comps + [(sep, i, to_py_slice(sl) if not isinstance(sl, int) else sl)]
             out.append((expr, cs))
@@ -260,6 +268,8 @@ def check_message(ctx, case, toks, b, tag, max_depth, budget):
         io = impl_query(m, e)
         ctx.count((case.get('seed', case.get('file')), e), True)
         ctx.dist['sep:' + ''.join(sorted(set(ch for ch in e if ch in '/.>')))] += 1
+        if ':-1]' in e or ':-2]' in e:
+            ctx.dist['negative-step-slice'] += 1
         rec = dict(kind='C16-query-mismatch', case=case, expr=e)
         # subsets selected
         sm = subs_model[e]
@@ -328,6 +338,22 @@ def run(ctx):
     n = ctx.n(220, 3000)
     cases = P.build_cases(ctx, n, gen_kwargs=dict(size=5), nsub_choices=(1, 2, 3), compressed=(False, False, True),
                           versions=(33,), editions=(4,))
+    # templates with several same-id siblings at top level, inside one repetition, and among attributes
+    rng = ctx.rng
+    for k in range(ctx.n(24, 200)):
+        a, b2 = rng.sample([4004, 4005, 12001, 1001, 2001, 5002], 2)
+        shape = k % 4
+        if shape == 0:
+            ids = [a, b2, a, a, b2, a]
+        elif shape == 1:
+            ids = [103000 + rng.choice([2, 3]), a, b2, a, a]
+        elif shape == 2:
+            ids = [a, 104000, 31001, a, a, b2, a]
+        else:
+            ids = [204008, 31021, a, a, 204000, a, b2, a]
+        comp = rng.random() < 0.3
+        cases.append({'ids': ids, 'version': 33, 'edition': 4, 'nsub': rng.choice([1, 2]), 'compressed': comp, 'forced': '-',
+                      'seed': rng.randrange(1, 2 ** 32), 'maxrep': 3, 'features': {'repeated-siblings': 1}, 'shared': comp})
     P.attach_templates(cases)
     P.run_gen(cases)
     P.run_encode(cases)
